@@ -180,6 +180,11 @@ class UDPProxyProtocol(asyncio.DatagramProtocol):
             socks_parsed = self._parse_socks_datagram(data)
             if socks_parsed:
                 remote_addr, data = socks_parsed
+                # A near (SOCKS client side) endpoint must never be learnt as a far one, that would
+                # flip the direction inference for everything that endpoint sends from now on.
+                if remote_addr == source_addr or remote_addr in self.far_to_near_map.values():
+                    logging.warning("Got SOCKS packet addressed to near endpoint %s:%s, discarding" % remote_addr)
+                    return
                 # register the destination as a known far addr
                 # this allows us to have source and dest addr on the same IP
                 # since we expect a send from client->far to happen first
